@@ -32,6 +32,12 @@ class WitnessMixin:
 
     def conc_val(self, ctx, m, ty, depth):
         name = m.decl().name() if z3.is_app(m) else ""
+        bt = base_type(ty)
+        if bt in self.reg.classes and bt not in self.reg.enums and name not in ("RefV", "NoneV"):
+            return {"$default": bt}      # value left unconstrained by the model: any object of the declared class
+        if bt == "int" and name != "IntV": return 0
+        if bt == "str" and name != "StrV": return ""
+        if bt == "bool" and name != "BoolV": return False
         if name == "NoneV": return None
         if name == "BoolV": return z3.is_true(m.arg(0))
         if name == "IntV": return m.arg(0).as_long()
